@@ -16,6 +16,7 @@ type SpecVal struct {
 	Sort string
 	GoT  types.Type // nil for ghost sorts
 	Addr string     // location when the value is an addressable heap cell ("" otherwise)
+	Heap string     // heap array of an addressable non-struct cell
 	Pkg  *types.Package
 }
 
@@ -31,6 +32,14 @@ type Env struct {
 	local func(name string) (SpecVal, bool) // resolves source-level locals
 	pkg   *types.Package
 	depth int
+	blk   *ssa.BasicBlock // program point (for label availability)
+}
+
+type labelUnavailable struct{ name string }
+
+type stateLabel struct {
+	st  *State
+	blk *ssa.BasicBlock
 }
 
 func (e *Env) with(vars map[string]SpecVal) *Env {
@@ -172,11 +181,27 @@ func (vc *VC) eval(x SExpr, env *Env) SpecVal {
 		}
 		return ghostVal(vc.enc.TypeConst(gt), "Type")
 	case SHeap:
+		var h string
 		gt, _, err := vc.w.resolveType(e.T, env.pkg)
-		if err != nil || gt == nil {
+		if (err != nil || gt == nil) && e.T.Pkg != "" && !e.T.Slice {
+			// heap[Struct.field]
+			stT, _, err2 := vc.w.resolveType(&STypeExpr{Name: e.T.Pkg}, env.pkg)
+			if err2 != nil || stT == nil {
+				specFail("heap[%s]: %v", e.T, err2)
+			}
+			obj, index, _ := types.LookupFieldOrMethod(stT, true, env.pkgOf(stT), e.T.Name)
+			if _, ok := obj.(*types.Var); !ok || len(index) != 1 {
+				specFail("heap[%s]: no direct field %s", e.T, e.T.Name)
+			}
+			h = vc.enc.FieldHeap(stT, index[0])
+		} else if err != nil || gt == nil {
 			specFail("heap[%s]: %v", e.T, err)
+		} else if sl, ok := gt.Underlying().(*types.Slice); ok {
+			// heap[[]T]: the element heap of slices of T
+			h = vc.enc.HeapFor(sl.Elem())
+		} else {
+			h = vc.enc.HeapFor(gt)
 		}
-		h := vc.enc.HeapFor(gt)
 		return ghostVal(vc.heapGet(env.st, h), fmt.Sprintf("(Array Loc %s)", vc.enc.heaps[h]))
 	case SAddr:
 		v := vc.eval(e.X, env)
@@ -311,7 +336,7 @@ func (vc *VC) loadSpec(st *State, loc string, t types.Type) SpecVal {
 		// lazy: struct lvalue; T is computed on demand by field access; full record if used as value
 		return SpecVal{T: vc.loadVal(st, loc, t), Sort: vc.enc.SortOf(t), GoT: t, Addr: loc}
 	}
-	return SpecVal{T: vc.loadVal(st, loc, t), Sort: vc.enc.SortOf(t), GoT: t, Addr: loc}
+	return SpecVal{T: vc.loadVal(st, loc, t), Sort: vc.enc.SortOf(t), GoT: t, Addr: loc, Heap: vc.enc.HeapFor(t)}
 }
 
 func (vc *VC) evalField(e SField, env *Env) SpecVal {
@@ -377,7 +402,8 @@ func (vc *VC) evalField(e SField, env *Env) SpecVal {
 			if _, isStruct := ft.Underlying().(*types.Struct); isStruct {
 				cur = SpecVal{T: "", Sort: vc.enc.SortOf(ft), GoT: ft, Addr: loc}
 			} else {
-				cur = SpecVal{T: vc.loadVal(env.st, loc, ft), Sort: vc.enc.SortOf(ft), GoT: ft, Addr: loc}
+				fh := vc.enc.FieldHeap(cur.GoT, idx)
+				cur = SpecVal{T: vc.loadLeaf(env.st, fh, loc), Sort: vc.enc.SortOf(ft), GoT: ft, Addr: loc, Heap: fh}
 			}
 		} else {
 			cur = SpecVal{T: sx(vc.enc.structSel(cur.GoT, idx), cur.T), Sort: vc.enc.SortOf(ft), GoT: ft}
@@ -467,6 +493,12 @@ func (vc *VC) evalBin(e SBin, env *Env) SpecVal {
 	a := vc.materialize(vc.eval(e.X, env), env)
 	b := vc.materialize(vc.eval(e.Y, env), env)
 	switch e.Op {
+	case "===":
+		a, b = vc.unifyNil(a, b)
+		if a.Sort != b.Sort {
+			specFail("comparing %s with %s in %s", a.Sort, b.Sort, e)
+		}
+		return ghostVal(eq(a.T, b.T), "Bool")
 	case "==", "!=":
 		var r string
 		if a.Sort == "Nil" && b.Sort == "Nil" {
@@ -492,7 +524,11 @@ func (vc *VC) evalBin(e SBin, env *Env) SpecVal {
 			if a.Sort != b.Sort {
 				specFail("comparing %s with %s in %s", a.Sort, b.Sort, e)
 			}
-			r = eq(a.T, b.T)
+			if a.Sort == "Iface" {
+				r = sx("iface_eq", a.T, b.T)
+			} else {
+				r = eq(a.T, b.T)
+			}
 		}
 		if e.Op == "!=" {
 			r = not(r)
@@ -575,6 +611,19 @@ func (vc *VC) evalCall(c SCall, env *Env) SpecVal {
 		return vc.materialize(vc.eval(c.Args[i], env), env)
 	}
 	switch c.Fn {
+	case "at":
+		// at(L, e): evaluate e in the state saved by `label L`
+		id, ok := c.Args[0].(SIdent)
+		if !ok || len(c.Args) != 2 {
+			specFail("at(Label, expr)")
+		}
+		lb := vc.labels[id.Name]
+		if lb == nil || (env.blk != nil && lb.blk != nil && lb.blk != env.blk && !lb.blk.Dominates(env.blk)) {
+			panic(labelUnavailable{id.Name})
+		}
+		n := *env
+		n.st = lb.st
+		return vc.materialize(vc.eval(c.Args[1], &n), &n)
 	case "len":
 		v := arg(0)
 		switch v.Sort {
